@@ -233,7 +233,7 @@ class DummyFixedExtensionHeader (FixedExtensionHeader):
   Just saves the raw body data
   """
   def _init (self, *args, **kw):
-    self.raw_body = '\x00' * (self.LENGTH - 1)
+    self.raw_body = b'\x00' * (self.LENGTH - 1)
   def _pack_body (self):
     return self.raw_body
   @classmethod
